@@ -40,6 +40,11 @@ def carriers():
     fam('return-value', lambda t: [('if', L(1), ('ret', ('inc', False, t, '++')))])
     fam('inline-if-target', lambda t: [('expr', ('asg', ('ite', L(1), t, t), L(1), '='))])
     fam('nested-assign', lambda t: [('expr', ('op', L(1), asg(t)))])
+    # a conditional l-value whose other branch is a local: the written object is either branch
+    fam('inline-if-else-branch', lambda t: [('expr', ('asg', ('ite', L(1), V(LID), t), L(1), '='))])
+    fam('inline-if-then-branch', lambda t: [('expr', ('asg', ('ite', L(1), t, V(LID)), L(1), '='))])
+    fam('inline-if-else-branch-inc', lambda t: [('expr', ('inc', False, ('ite', L(1), V(LID), t), '++'))])
+    fam('inline-if-nested-else', lambda t: [('expr', ('asg', ('ite', L(1), V(LID), ('ite', L(0), V(LID), t)), L(1), '+='))])
     # array element and struct field (the twin writes nothing)
     for nm, tgt in (('array-element', ('idx', V(G.GA), L(1))), ('struct-field', ('dot', V(G.GS)))):
         for twin in (False, True):
